@@ -264,7 +264,10 @@ def run_real(cfg: Cfg, chunks: list[bytes], cls=None):
                  getattr(c, "rectangles", 0), bool(getattr(c, "deferred", None)) if cfg.variant != 0 else False)
     screen = None
     if cfg.variant != 0 and getattr(c, "screen", None) is not None:
-        screen = (c.screen.size, c.screen.tobytes())
+        # a giant canvas (a few header bytes can announce 65535x65535) is compared by size only: dumping it would
+        # exhaust the guarded child's address space in the harness, not in the client
+        sw, sh = c.screen.size
+        screen = (c.screen.size, c.screen.tobytes() if sw * sh <= 16_000_000 else b"elided")
     return {"events": events, "final": final, "tape": tape, "screen": screen, "client": c,
             "steps": getattr(c, "_steps", None)}
 
